@@ -207,7 +207,7 @@ def rule_3(ctx):
                        f'the digit string {s!r} for base {base} gives {out.end} {out.value!r}, expected '
                        f'{"#NUM! (invalid digit, sign, blank, separator or more than 10 digits)" if want == "num" else "acceptance"}')
     # the digit guard dominates the conversion: int(number, base) in conversion() only sees validated text
-    conv = em.func('conversion')
+    conv = ctx.func('xlfunctions.engineering', 'conversion')
     ints = [c for c in flow.calls_in(conv) if isinstance(c.func, ast.Name) and c.func.id == 'int' and len(c.args) == 2]
     ctx.expect(len(ints) == 1, conv, 'one int(text, base) parse', 'conversion() does not parse the digit string exactly once')
     order = [ast.unparse(c.func) for c in sorted(flow.calls_in(cb), key=flow.pos)
@@ -219,7 +219,7 @@ def rule_3(ctx):
 
 def rule_4(ctx):
     em = _em(ctx)
-    conv = em.func('conversion')
+    conv = ctx.func('xlfunctions.engineering', 'conversion')
     p = func_params(conv)
     origin, dest = p[1], p[2]
 
